@@ -23,10 +23,16 @@ import RedunModel.Model.CacheLookup
 namespace RedunModel.C38
 open RedunModel.EvalCore
 
-/-- Full strength: through `subrun` (new or extended execution) an expression has exactly the outcomes
-(value, or error re-raised) it has when evaluated directly. -/
-theorem subrun_equiv (lib : Lib) (e : Expr) (ne : Bool) (r : Out) :
-    Eval lib (.subrun e ne) r ↔ Eval lib e r := by
+/-- the context the sub-scheduler evaluates under: `run_config["context"]` is the calling job's context `c`; a new
+execution is started with `run(context=c)` on top of the (forwarded) config context, an extended one hangs the inner
+jobs under a dummy parent job whose only context override is `c` -/
+def innerCtx (lib : Lib) (c : Ctx) (ne : Bool) : Ctx := if ne then lib.config.over c else Ctx.empty.over c
+
+/-- What is forwarded (no assumption on the context): through `subrun` an expression has exactly the outcomes it has
+when evaluated directly under `innerCtx`. -/
+theorem subrun_inner (lib : Lib) (c : Ctx) (e : Expr) (ne : Bool) (r : Out) :
+    Eval lib c (.subrun e ne) r ↔ Eval lib (innerCtx lib c ne) e r := by
+  unfold innerCtx
   constructor
   · intro h
     cases h with
@@ -59,19 +65,70 @@ theorem subrun_equiv (lib : Lib) (e : Expr) (ne : Bool) (r : Out) :
     | err x => exact Eval.subrunErr h
     | unk => exact absurd rfl h.ne_unk
 
+/-- every variable of the configuration context is defined in `c` -/
+def Covers (cfg c : Ctx) : Prop := ∀ k, cfg k ≠ none → c k ≠ none
+
+/-- the context of every job of a run covers the config context: the root context is config + run context ... -/
+theorem covers_root (cfg run : Ctx) : Covers cfg (cfg.over run) := by
+  intro k hk
+  unfold Ctx.over
+  cases h : run k with
+  | some v => simp
+  | none => simpa using hk
+
+/-- ... and `update_context` overrides on the way down only add or replace variables -/
+theorem covers_override (cfg c : Ctx) (ovn : List String) (ovv : List Expr) (h : Covers cfg c) :
+    Covers cfg (c.override ovn ovv) := by
+  intro k hk
+  unfold Ctx.override
+  cases h' : kvLookup ovn ovv k with
+  | some v => simp
+  | none => simpa using h k hk
+
+theorem innerCtx_eq (lib : Lib) (c : Ctx) (ne : Bool) (h : Covers lib.config c) : innerCtx lib c ne = c := by
+  funext k
+  unfold innerCtx
+  cases ne with
+  | false =>
+    simp only [Bool.false_eq_true, if_false, Ctx.over, Ctx.empty]
+    cases c k <;> rfl
+  | true =>
+    simp only [if_true, Ctx.over]
+    cases hc : c k with
+    | some v => rfl
+    | none =>
+      cases hl : lib.config k with
+      | none => rfl
+      | some w => exact absurd hc (h k (by simp [hl]))
+
+/-- Full strength: in every context a job of the run can have, through `subrun` (new or extended execution) an expression
+has exactly the outcomes (value, or error re-raised) it has when evaluated directly in that context. -/
+theorem subrun_equiv (lib : Lib) (c : Ctx) (hc : Covers lib.config c) (e : Expr) (ne : Bool) (r : Out) :
+    Eval lib c (.subrun e ne) r ↔ Eval lib c e r := by
+  rw [subrun_inner, innerCtx_eq lib c ne hc]
+
+/-- an extended execution needs no assumption at all -/
+theorem subrun_equiv_extend (lib : Lib) (c : Ctx) (e : Expr) (r : Out) :
+    Eval lib c (.subrun e false) r ↔ Eval lib c e r := by
+  rw [subrun_inner]
+  have : innerCtx lib c false = c := by
+    funext k
+    simp only [innerCtx, Bool.false_eq_true, if_false, Ctx.over, Ctx.empty]
+    cases c k <;> rfl
+  rw [this]
 
 /-- values come back unchanged ... -/
-theorem subrun_value (lib : Lib) (e : Expr) (ne : Bool) (v : Expr) (h : Eval lib e (.ok v)) :
-    Eval lib (.subrun e ne) (.ok v) := (subrun_equiv lib e ne _).mpr h
+theorem subrun_value (lib : Lib) (c : Ctx) (hc : Covers lib.config c) (e : Expr) (ne : Bool) (v : Expr)
+    (h : Eval lib c e (.ok v)) : Eval lib c (.subrun e ne) (.ok v) := (subrun_equiv lib c hc e ne _).mpr h
 
 /-- ... errors are re-raised with the same class and message ... -/
-theorem subrun_error (lib : Lib) (e : Expr) (ne : Bool) (x : Err) (h : Eval lib e (.err x)) :
-    Eval lib (.subrun e ne) (.err x) := (subrun_equiv lib e ne _).mpr h
+theorem subrun_error (lib : Lib) (c : Ctx) (hc : Covers lib.config c) (e : Expr) (ne : Bool) (x : Err)
+    (h : Eval lib c e (.err x)) : Eval lib c (.subrun e ne) (.err x) := (subrun_equiv lib c hc e ne _).mpr h
 
 /-- ... and nothing else can come out; also through nested subruns, with any mix of settings -/
-theorem subrun_nested (lib : Lib) (e : Expr) (ne1 ne2 : Bool) (r : Out) :
-    Eval lib (.subrun (.subrun e ne1) ne2) r ↔ Eval lib e r := by
-  rw [subrun_equiv, subrun_equiv]
+theorem subrun_nested (lib : Lib) (c : Ctx) (hc : Covers lib.config c) (e : Expr) (ne1 ne2 : Bool) (r : Out) :
+    Eval lib c (.subrun (.subrun e ne1) ne2) r ↔ Eval lib c e r := by
+  rw [subrun_equiv lib c hc, subrun_equiv lib c hc]
 
 open RedunModel.CacheLookup
 
@@ -110,12 +167,22 @@ theorem subrun_shallow_replays_ultimate (f : Facts) (b : Bool) (hc : f.cse = non
 /-! Non-vacuity. -/
 open RedunModel.EvalLib
 
-example : evalFuel lib 30 (.subrun (tcall "ev.twice" [.int 3]) false) = some (.ok (.int 5)) := by rfl
-example : evalFuel lib 30 (.subrun (tcall "ev.fail_after" [.int 1, .str "K"]) false)
+theorem covers_lib (c : Ctx) : Covers lib.config c := by intro k hk; exact absurd rfl hk
+
+example : evalFuel lib 30 Ctx.empty (.subrun (tcall "ev.twice" [.int 3]) false) = some (.ok (.int 5)) := by rfl
+example : evalFuel lib 30 Ctx.empty (.subrun (tcall "ev.fail_after" [.int 1, .str "K"]) false)
     = some (.err ⟨"KeyError", "K-deep"⟩) := by rfl
-example : evalFuel lib 30 (.subrun (tcall "ev.fail_after" [.int 1, .str "K"]) true)
+example : evalFuel lib 30 Ctx.empty (.subrun (tcall "ev.fail_after" [.int 1, .str "K"]) true)
     = some (.err ⟨"KeyError", "K-deep"⟩) := by rfl
-example : Eval lib (.subrun (tcall "ev.twice" [.int 3]) true) (.ok (.int 5)) :=
-  subrun_value lib _ true _ (evalFuel_sound (n := 20) (by rfl))
+example : Eval lib Ctx.empty (.subrun (tcall "ev.twice" [.int 3]) true) (.ok (.int 5)) :=
+  subrun_value lib _ (covers_lib _) _ true _ (evalFuel_sound (n := 20) (by rfl))
+
+/-- the caller's context reaches the sub-workflow in both modes: `ctx_flow(5)` under `{k: 3, j: 7}` -/
+def exCtx : Ctx := fun k => if k = "k" then some (.int 3) else if k = "j" then some (.int 7) else none
+
+example : evalFuel lib 30 exCtx (.subrun (tcall "ev.ctx_flow" [.int 5]) true) = some (.ok (L [.int 22, .int 18])) := by rfl
+example : evalFuel lib 30 exCtx (.subrun (tcall "ev.ctx_flow" [.int 5]) false) = some (.ok (L [.int 22, .int 18])) := by rfl
+/-- ... whereas a sub-scheduler started WITHOUT the forwarded context (only its config context) would return something else -/
+example : evalFuel lib 30 lib.config (tcall "ev.ctx_flow" [.int 5]) = some (.ok (L [.int 5, .int 6])) := by rfl
 
 end RedunModel.C38
